@@ -45,3 +45,69 @@ Proof.
   - apply dispatch8_spec. right. reflexivity.
   - apply dispatch4_spec. right. reflexivity.
 Qed.
+
+(** THE MODEL THAT IS COMPARED WITH LogicSim.c_prop(inject_cb=...) (Model/LogicSimModel.v [c_prop_cb] on a list memory laid out
+    by SimOps.build, any c_reuse / strip_forks) refines the op-list callback semantics above.  [line_ops c so]: the scheduled op
+    rows with the primitive from the opcode table and operands read through the stem table; [line_cb n cb]: the callback applied
+    to outputs that are lines (index < n) only.  (Proofs/LogicSimGlue.v) *)
+From KV Require Import Model.Netlist Model.NetlistWf Model.SimOps Model.AllocCheck Model.SimOpsCert Model.NetlistSem Model.CycleSem
+     Model.LogicSimModel.
+From KV Require Proofs.LogicSimGlue Proofs.ReuseStrip Proofs.EndToEnd.
+Local Open Scope list_scope.
+
+(* a memory that holds e at the stimulus slots: after c_prop with callback every observed slot holds the value that exec_ops_cb
+   gives the signal the slot stands for *)
+Theorem C16_model_callback_correct : forall V (dflt : V) (sem : prim -> V -> V -> V -> V -> V) cb c caps cmin reuse strip so m (e : env V),
+  wf_netlist c -> comb_acyclic c -> (0 < cmin)%N -> KV.Proofs.EndToEnd.gates_known c -> (strip = true -> KV.Proofs.ReuseStrip.forks_ok c) ->
+  build c caps cmin reuse strip = Some so ->
+  List.length m = N.to_nat (so_len so) ->
+  (forall x l, In x (so_init so) -> so_loc so x = Some l -> nth l m dflt = e x) ->
+  forall p, In p (so_final so) ->
+    KV.Model.LogicSimModel.rd dflt so (c_prop_cb dflt sem cb so m) p
+    = exec_ops_cb sem (KV.Proofs.LogicSimGlue.line_cb (so_nlines so) cb) (KV.Proofs.LogicSimGlue.line_ops c so) e (so_alias c so p).
+Proof. intros V dflt sem. exact (KV.Proofs.LogicSimGlue.model_callback_correct dflt sem). Qed.
+
+(* C16_override / C16_upstream transferred: a callback that alters the output of one scheduled op only *)
+Theorem C16_model_callback_override : forall V (dflt : V) (sem : prim -> V -> V -> V -> V -> V) cb c caps cmin reuse strip so m (e : env V) ops1 o ops2,
+  wf_netlist c -> comb_acyclic c -> (0 < cmin)%N -> KV.Proofs.EndToEnd.gates_known c -> (strip = true -> KV.Proofs.ReuseStrip.forks_ok c) ->
+  build c caps cmin reuse strip = Some so ->
+  List.length m = N.to_nat (so_len so) ->
+  (forall x l, In x (so_init so) -> so_loc so x = Some l -> nth l m dflt = e x) ->
+  KV.Proofs.LogicSimGlue.line_ops c so = ops1 ++ o :: ops2 ->
+  (forall o', In o' ops1 -> forall v, cb (o_out o') v = v) ->
+  (forall o', In o' ops2 -> forall v, cb (o_out o') v = v) ->
+  forall p, In p (so_final so) ->
+    KV.Model.LogicSimModel.rd dflt so (c_prop_cb dflt sem cb so m) p
+    = exec_ops sem ops2 (upd (exec_ops sem ops1 e) (o_out o)
+        (KV.Proofs.LogicSimGlue.line_cb (so_nlines so) cb (o_out o)
+           (let e1 := exec_ops sem ops1 e in sem (o_prim o) (e1 (o_i0 o)) (e1 (o_i1 o)) (e1 (o_i2 o)) (e1 (o_i3 o))))) (so_alias c so p).
+Proof. intros V dflt sem. exact (KV.Proofs.LogicSimGlue.model_callback_override dflt sem). Qed.
+
+(* C16_identity on the model itself *)
+Theorem C16_model_identity : forall V (dflt : V) (sem : prim -> V -> V -> V -> V -> V) so m,
+  c_prop_cb dflt sem (fun _ v => v) so m = c_prop dflt sem so m.
+Proof. intros V dflt sem. exact (KV.Proofs.LogicSimGlue.c_prop_cb_identity dflt sem). Qed.
+
+(* C16_trace: the model's call sequence is the trace's outputs that are lines, in op order *)
+Theorem C16_model_trace : forall V (sem : prim -> V -> V -> V -> V -> V) cb' c so (e : env V),
+  cb_lines so = filter (fun k => Nat.ltb k (so_nlines so)) (map fst (cb_trace sem cb' (KV.Proofs.LogicSimGlue.line_ops c so) e)).
+Proof. intros V sem. exact (KV.Proofs.LogicSimGlue.cb_lines_trace sem). Qed.
+
+(* the entry point of the correspondence check itself (8-valued, one line forced to a value): call sequence and captured vector *)
+Theorem C16_sim_case8_cb_correct : forall c reuse strip s0 s1 il iv,
+  wf_netlist c -> comb_acyclic c -> KV.Proofs.EndToEnd.gates_known c -> (strip = true -> KV.Proofs.ReuseStrip.forks_ok c) ->
+  List.length s0 = List.length (s_nodes c) -> List.length s1 = List.length (s_nodes c) ->
+  match sim_case8_cb c reuse strip s0 s1 il iv, build c (repeat 1%N (List.length (c_lines c) + 3)) 1%N reuse strip with
+  | Some (calls, r), Some so =>
+      let cb := fun k v => if Nat.eqb k il then iv else v in
+      let ev := exec_ops_cb sem8 (KV.Proofs.LogicSimGlue.line_cb (so_nlines so) cb) (KV.Proofs.LogicSimGlue.line_ops c so)
+                            (init_env Zero c (fun p => nth p s0 Zero)) in
+      calls = filter (fun k => Nat.ltb k (so_nlines so))
+                     (map fst (cb_trace sem8 (KV.Proofs.LogicSimGlue.line_cb (so_nlines so) cb) (KV.Proofs.LogicSimGlue.line_ops c so)
+                                        (init_env Zero c (fun p => nth p s0 Zero)))) /\
+      r = map (fun p => match snode_in c p with Some l0 => ev (stemmed (so_stems so) l0) | None => nth p s1 Zero end)
+              (seq 0 (List.length (s_nodes c)))
+  | None, None => build_stems c strip (List.length (c_lines c) + 3 + List.length (s_nodes c) + List.length (s_nodes c)) = None
+  | _, _ => False
+  end.
+Proof. exact KV.Proofs.LogicSimGlue.sim_case8_cb_correct. Qed.
